@@ -221,6 +221,27 @@ def replay_kernels(chk, binary, cases, index):
     return res
 
 
+WITNESS = [{"op": "Put", "id": 0, "v": 11}, {"op": "Put", "id": 1, "v": 21}, {"op": "Put", "id": 2, "v": 31},
+           {"op": "Free", "id": 0}, {"op": "Free", "id": 1}, {"op": "Compact"}]
+
+
+def probe_policy(binary):
+    """Arena.tla carries two transcriptions of the target choice of compactChunk: "impl" (targets from the top of the LIFO
+    free list - the code as found, whose cycle can run for ever) and "fixed" (the repair proposed in the report of C18:
+    lowest free slots, downwards only).  The shortest livelock witness TLC finds for "impl" tells which one the tree
+    under test implements; everything else is then compared exactly against that policy."""
+    prof = {"spc": 3, "nids": 3, "thnum": 3, "thden": 10, "move_bound": WATCHDOG_FACTOR * MAX_MOVES, "readers": 0}
+    res = vlib.run_sharded(binary, "arena", prof, [{"id": "witness", "steps": [{"op": op, "exp": None} for op in WITNESS]}], shards=1)
+    if res.get("errors"):
+        raise Infra("policy probe failed: %s" % res["errors"])
+    kinds = [d["kind"] for d in res.get("divergences") or []]
+    if kinds == ["compaction_livelock"]:
+        return "impl"
+    if not kinds:
+        return "fixed"
+    raise Infra("policy probe: unexpected divergences %s" % (res.get("divergences"),))
+
+
 # ------------------------------------------------------------------------------------- the check
 
 def run(tier):
@@ -234,25 +255,26 @@ def run(tier):
             raise Infra("SANY rejects %s:\n%s" % (m, out))
 
     # ---- 1. TLC, all configurations in parallel
+    policy = probe_policy(binary)
+    P = lambda *a_, **k_: arena_consts(*a_, policy=policy, **k_)
     full = {}     # exhaustive runs without corpus (thorough): larger bounds than what is replayed
     walks = None
     if quick:
-        a3 = arena_consts(3, 3, 4, 6)
-        a2 = arena_consts(2, 3, 4, 6)
-        live = arena_consts(3, 2, 3, 6, detect=False)
+        a3 = P(3, 3, 4, 6)
+        a2 = P(2, 3, 4, 6)
+        live = P(3, 2, 3, 6, detect=False)
         fixed = arena_consts(3, 3, 4, 6, policy="fixed", detect=False)
-        rdr = arena_consts(3, 2, 3, 7, readers="coarse")
+        rdr = P(3, 2, 3, 7, readers="coarse")
         rdrf = None
     else:
-        a3 = arena_consts(3, 3, 4, 7)
-        a2 = arena_consts(2, 3, 4, 6)
-        full = {"Arena_spc3_full": arena_consts(3, 3, 5, 7), "Arena_spc2_full": arena_consts(2, 3, 4, 8),
-                "Arena_spc4_full": arena_consts(4, 3, 5, 7)}
-        walks = arena_consts(3, 3, 5, 14)
-        live = arena_consts(3, 3, 4, 7, detect=False)
+        a3 = P(3, 3, 4, 7)
+        a2 = P(2, 3, 4, 6)
+        full = {"Arena_spc3_full": P(3, 3, 5, 7), "Arena_spc2_full": P(2, 3, 4, 8), "Arena_spc4_full": P(4, 3, 5, 7)}
+        walks = P(3, 3, 5, 14)
+        live = P(3, 3, 4, 7, detect=False)
         fixed = arena_consts(3, 3, 5, 7, policy="fixed", detect=False)
-        rdr = arena_consts(3, 2, 3, 7, readers="coarse")
-        rdrf = arena_consts(3, 2, 3, 7, readers="fine")
+        rdr = P(3, 2, 3, 7, readers="coarse")
+        rdrf = P(3, 2, 3, 7, readers="fine")
     kinds = ["pair", "pairx", "mismatch", "quant", "train", "f16", "rb8"]
     jobs = []
     with cf.ThreadPoolExecutor(max_workers=8 if quick else 6) as ex:
@@ -261,7 +283,8 @@ def run(tier):
         jobs.append(ex.submit(tlc_arena, "Arena_spc2", a2, "SpecCorpus", ARENA_INVS, (), w, 1500))
         for name, consts in full.items():
             jobs.append(ex.submit(tlc_arena, name, consts, "Spec", ARENA_INVS, (), w, 2400))
-        jobs.append(ex.submit(tlc_arena, "Arena_live", live, "SpecLive", ["Inv_ReadBack"], ["Prop_CycleTerminates"], 2, 1500))
+        if policy == "impl":   # for "fixed" the run Arena_fixed below is this very check
+            jobs.append(ex.submit(tlc_arena, "Arena_live", live, "SpecLive", ["Inv_ReadBack"], ["Prop_CycleTerminates"], 2, 1500))
         jobs.append(ex.submit(tlc_arena, "Arena_fixed", fixed, "SpecLive", ARENA_INVS[:4] + ["Inv_NoDivergence"],
                               ["Prop_CycleTerminates", "Prop_Progress", "Prop_NoGrowth"], w, 2400))
         jobs.append(ex.submit(tlc_arena, "Arena_reader", rdr, "SpecCorpus", ARENA_INVS, (), 2, 1500))
@@ -280,22 +303,24 @@ def run(tier):
     for name in ["Arena_spc3", "Arena_spc2", "Arena_fixed", "Arena_reader"] + sorted(full):
         chk.add_tlc(name, results[name])
     design_livelock = False
-    r = results["Arena_live"]
-    run_rec = {"config": "Arena_live", "distinct_states": r.distinct, "states_generated": r.generated, "depth": r.depth,
-               "wall_s": round(r.wall, 1), "ok": r.ok, "cmd": r.cmd}
-    if r.ok:
-        run_rec["verdict"] = "every compaction cycle of the transcription terminates"
-    elif r.error and "Prop_CycleTerminates" in r.error:
-        design_livelock = True
-        lines = getattr(r, "lines", [])
-        cyc = [ln for ln in lines if ln.startswith("/\\ st =") or ln.startswith("/\\ fs =") or ln.startswith("Back to state")]
-        run_rec["verdict"] = "Prop_CycleTerminates violated by the transcription of compactChunk: lasso " + " | ".join(cyc[-5:])
-        run_rec["ok"] = "expected-counterexample"
-    else:
-        chk.infra.append("TLC failed on Arena_live: %s" % (r.error or r.raw_tail)[:1500])
-    chk.cov["tlc_runs"].append(run_rec)
-    chk.cov["states"] += r.distinct
-    chk.cov["transitions"] += r.generated
+    chk.cov["policy_matched"] = policy
+    if policy == "impl":
+        r = results["Arena_live"]
+        run_rec = {"config": "Arena_live", "distinct_states": r.distinct, "states_generated": r.generated, "depth": r.depth,
+                   "wall_s": round(r.wall, 1), "ok": r.ok, "cmd": r.cmd}
+        if r.ok:
+            run_rec["verdict"] = "every compaction cycle of the transcription terminates"
+        elif r.error and "Prop_CycleTerminates" in r.error:
+            design_livelock = True
+            lines = getattr(r, "lines", [])
+            cyc = [ln for ln in lines if ln.startswith("/\\ st =") or ln.startswith("/\\ fs =") or ln.startswith("Back to state")]
+            run_rec["verdict"] = "Prop_CycleTerminates violated by the transcription of compactChunk: lasso " + " | ".join(cyc[-5:])
+            run_rec["ok"] = "expected-counterexample"
+        else:
+            chk.infra.append("TLC failed on Arena_live: %s" % (r.error or r.raw_tail)[:1500])
+        chk.cov["tlc_runs"].append(run_rec)
+        chk.cov["states"] += r.distinct
+        chk.cov["transitions"] += r.generated
     design_stale = False
     if rdrf:
         r = results["Arena_reader_fine"]
@@ -399,6 +424,8 @@ def run(tier):
                           "calls_checked": kres.get("checks", 0), "wall_s": round(t_kern, 1), "notes": sorted(set(kres.get("notes") or []))[:8]}
     chk.cov["samples"] = [[s["op"] for s in b["steps"]] for b in (b3[:2] + bstale[:1])] + [c["c"] for c in cases[:1]]
     chk.assumptions += [
+        "target choice of compactChunk matched by the livelock witness probe: Policy = \"%s\" of Arena.tla (\"impl\" = the code as found, "
+        "\"fixed\" = the repair proposed with finding KF-C18-1); allocator state is compared exactly against that policy" % policy,
         "pure-Go build only (no 'rust' tag, no AVX assembly): SIMD/Rust kernels are out of scope",
         "NOT decided: tolerance bounds of kernels/quantiser for general float magnitudes (denormal..large, NaN/Inf, float16 overflow "
         "beyond 65504) and the clause 'compression perturbs rankings only among near-ties' for general data - only lattice instances "
